@@ -58,13 +58,15 @@ def model_check(rep, work, tier):
         res.update(dict(ex.map(job, big)))
     for r in res.values():
         rep.add_states(r.distinct, r.generated)
-    # (a) vacuity guard: the faithful model must violate each property (design-level counterexample)
+    # (a) vacuity guard: the model of the implementation must violate the properties it is known to break
+    #     (design-level counterexamples): Confluent and MatchesDeclarative for the current tree ("faithful"),
+    #     ResultIsMeaning for the pinned snapshot ("pinned", silent overwrite, repaired by 59a830b)
     for inv in viol:
         r = res[f"viol-{inv}"]
         flat = [x for pair in r.violated for x in pair if x]
         if r.ok or inv not in flat:
-            raise vf.ToolError(f"vacuity: the faithful MultiParse model no longer violates {inv} (got ok={r.ok}, {r.violated})")
-    vf.log("faithful model: TLC found the counterexamples to Confluent, MatchesDeclarative, ResultIsMeaning")
+            raise vf.ToolError(f"vacuity: the MultiParse model of the implementation no longer violates {inv} (got ok={r.ok}, {r.violated})")
+    vf.log("implementation model: TLC found the counterexamples to Confluent, MatchesDeclarative (current tree) and ResultIsMeaning (pinned snapshot)")
     # (b) the closed form used by the trace spec agrees with the state machine
     for mode in ("faithful", "intended"):
         r = res[f"closed-{mode}"]
@@ -78,7 +80,8 @@ def model_check(rep, work, tier):
     # (d) the faithful model, every scenario printed with its reachable outcomes
     r = res["emit"]
     if not r.ok:
-        raise vf.ToolError(f"MC_MultiParse emit run failed: {r.violated}")
+        raise vf.ToolError(f"the model of the current implementation returns a wrong result on success (InputOrderPreserved / "
+                           f"ResultIsMeaning): {r.violated}")
     scns = sorted(set(r.tagged("SCN")))
     if not scns:
         raise vf.ToolError("MC_MultiParse emitted no scenarios (vacuous run)")
